@@ -152,7 +152,22 @@ def run(tier, seed):
     keyed = [{"why": "well-formed map with these two keys", "map_keys": [x, y]} for x in ou for y in ou]
     for _ in range(20000 if thorough else 2000):
         keyed.append({"why": "well-formed map with these three keys", "map_keys": [rng.choice(ou), rng.choice(ou), rng.choice(ou)]})
-    sets = [("grammar", attacks), ("nest", templates), ("compressed", comp), ("trunc", trunc), ("mut", muts), ("map_keys", keyed)]
+    # atom text: a multi-byte character at every byte offset of names of 71 (+) bytes -- as a term of its own, as a tuple element, as a
+    # map key and as a map value; UTF-8 tags (small and long form) and Latin-1 text in the legacy tag; whole and cut after the atom
+    atomtext = []
+    for ch in ("\u00e9", "\u20ac", "\U0001d11e"):
+        for k in range(0, 71):
+            name = ("a" * k + ch + "z" * (70 - k)).encode()
+            forms = [("SMALL_ATOM_UTF8_EXT", [119, len(name)] + list(name)), ("ATOM_UTF8_EXT", [118] + list(len(name).to_bytes(2, "big")) + list(name))]
+            if ch == "\u00e9":
+                l1 = ("a" * k).encode() + b"\xe9" + ("z" * (70 - k)).encode()
+                forms.append(("ATOM_EXT (Latin-1)", [100] + list(len(l1).to_bytes(2, "big")) + list(l1)))
+            for fname, ab in forms:
+                for ctx, pre, post in (("alone", [], []), ("tuple element", [104, 2, 97, 1], []), ("map key", [116, 0, 0, 0, 1], [97, 1]), ("map value", [116, 0, 0, 0, 1, 97, 1], [])):
+                    atomtext.append({"why": f"{fname} with a {len(ch.encode())}-byte character at offset {k}, {ctx}", "bytes": [131] + pre + ab + post})
+                    if post:
+                        atomtext.append({"why": f"{fname} with a {len(ch.encode())}-byte character at offset {k}, {ctx}, input ends after the atom", "bytes": [131] + pre + ab})
+    sets = [("grammar", attacks), ("nest", templates), ("compressed", comp), ("trunc", trunc), ("mut", muts), ("map_keys", keyed), ("atom_text", atomtext)]
     total_crashes = 0
     for tag, inputs in sets:
         obs, crashes = run_inputs(v, inputs, tag)
